@@ -26,7 +26,7 @@ structure Topo where
   nn : Nat            -- num_nodes
   cf : List Inc       -- stored entries of cell_faces, storage (csc) order
   fn : List (List Nat) -- nodes of face 0, 1, ... (columns of face_nodes)
-deriving Repr
+deriving DecidableEq, Repr
 
 /-! ### reading the compressed arrays (what the harness sends) -/
 
@@ -135,6 +135,146 @@ def divergence (t : Topo) (dim : Int) : Option Triplets :=
 /-- value of the matrix represented by triplets at (r, c): repeated positions add up -/
 def entry (tr : Triplets) (r c : Nat) : Int :=
   ((tr.filter (fun x => x.1 == r && x.2.1 == c)).map (fun x => x.2.2)).sum
+
+/-! ### matrix-vector product (divergence applied to a flux vector) -/
+
+/-- `(M @ u)[r]` for `M` given by triplets -/
+def applyTrip : Triplets → (Nat → Rat) → Nat → Rat
+  | [], _, _ => 0
+  | x :: tr, u, r => (if x.1 = r then (x.2.2 : Rat) * u x.2.1 else 0) + applyTrip tr u r
+
+/-! ### tag arithmetic (`porepy/utils/tags.py` and the tag helpers of `Grid`) -/
+
+/-- a tag dictionary: key ↦ boolean array, in insertion order (python `dict`) -/
+abbrev Tags := List (String × List Bool)
+
+/-- `tags[key]` (`none` = KeyError) -/
+def Tags.get : Tags → String → Option (List Bool)
+  | [], _ => none
+  | kv :: tg, key => if kv.1 = key then some kv.2 else Tags.get tg key
+
+/-- `tags[key] = v` -/
+def Tags.set : Tags → String → List Bool → Tags
+  | [], key, v => [(key, v)]
+  | kv :: tg, key, v => if kv.1 = key then (kv.1, v) :: tg else kv :: Tags.set tg key v
+
+/-- `tags.standard_face_tags()` -/
+def standardFaceTags : List String := ["fracture_faces", "tip_faces", "domain_boundary_faces"]
+
+/-- `tags.standard_node_tags()` -/
+def standardNodeTags : List String := ["fracture_nodes", "tip_nodes", "domain_boundary_nodes"]
+
+/-- `np.logical_or` of two arrays of the same length -/
+def orArr : List Bool → List Bool → List Bool
+  | a :: as, b :: bs => (a || b) :: orArr as bs
+  | _, _ => []
+
+/-- `tags.all_tags(parent, ft)`: `logical_or(logical_or(parent[ft[0]], parent[ft[1]]), parent[ft[2]])` -/
+def allTags (tg : Tags) (ft : List String) : Option (List Bool) :=
+  match ft with
+  | a :: b :: c :: _ =>
+    match tg.get a, tg.get b, tg.get c with
+    | some x, some y, some z => some (orArr (orArr x y) z)
+    | _, _, _ => none
+  | _ => none
+
+def allFaceTags (tg : Tags) : Option (List Bool) := allTags tg standardFaceTags
+def allNodeTags (tg : Tags) : Option (List Bool) := allTags tg standardNodeTags
+
+/-- `tags.add_tags(parent, new_tags)`: `nt = dict(old); nt.update(new_tags)` -/
+def addTags (old new : Tags) : Tags := new.foldl (fun acc kv => acc.set kv.1 kv.2) old
+
+/-- `arr[indices]` (fancy indexing; `none` = IndexError) -/
+def takeIdx (arr : List Bool) (idx : List Nat) : Option (List Bool) := idx.mapM (fun i => arr[i]?)
+
+/-- `tags.extract(all_tags, indices, keys)`: the listed keys are re-indexed, the others untouched -/
+def extractTags : Tags → List Nat → List String → Option Tags
+  | tg, _, [] => some tg
+  | tg, idx, k :: ks =>
+    match tg.get k with
+    | none => none
+    | some v =>
+      match takeIdx v idx, extractTags tg idx ks with
+      | some w, some tg' => some (tg'.set k w)
+      | _, _ => none
+
+/-- `tags.append_tags(tags, keys, appendices)` -/
+def appendTags : Tags → List (String × List Bool) → Option Tags
+  | tg, [] => some tg
+  | tg, (k, a) :: rest =>
+    match tg.get k with
+    | none => none
+    | some v => appendTags (tg.set k (v ++ a)) rest
+
+/-- `Grid._indices(true_false)` = `np.argwhere(...).ravel()` -/
+def indicesOf (l : List Bool) : List Nat := (List.range l.length).filter (fun i => l.getD i false)
+
+/-- node tag derived from a face tag (`Grid.update_boundary_node_tag`, one loop iteration; also
+    `tags.add_node_tags_from_face_tags`): a node is tagged iff it belongs to a tagged face -/
+def nodeTagFromFaces (t : Topo) (ft : List Bool) : List Bool :=
+  (List.range t.nn).map (fun n =>
+    (List.range t.nf).any (fun f => ft.getD f false && (t.fn.getD f []).contains n))
+
+/-- `Grid.initiate_face_tags` / `initiate_node_tags`: zero arrays for the standard keys via `add_tags` -/
+def initiateTags (keys : List String) (n : Nat) (tg : Tags) : Tags :=
+  addTags tg (keys.map (fun k => (k, List.replicate n false)))
+
+/-- `Grid.update_boundary_face_tag` on the dictionary -/
+def updateBoundaryFaceTag (t : Topo) (tg : Tags) : Tags :=
+  tg.set "domain_boundary_faces" ((List.range t.nf).map (isBoundary t))
+
+/-- `Grid.update_boundary_node_tag` (the three node keys are distinct from the face keys, so reading
+    the face tags first is the same as the loop of the code) -/
+def updateBoundaryNodeTag (t : Topo) (tg : Tags) : Option Tags :=
+  match tg.get "domain_boundary_faces", tg.get "fracture_faces", tg.get "tip_faces" with
+  | some d, some f, some p =>
+    some (((tg.set "domain_boundary_nodes" (nodeTagFromFaces t d)).set "fracture_nodes"
+      (nodeTagFromFaces t f)).set "tip_nodes" (nodeTagFromFaces t p))
+  | _, _, _ => none
+
+/-- the tags of a grid as the constructor leaves them (`external_tags is None`) -/
+def freshTags (t : Topo) : Option Tags :=
+  updateBoundaryNodeTag t
+    (initiateTags standardNodeTags t.nn (updateBoundaryFaceTag t (initiateTags standardFaceTags t.nf [])))
+
+/-! ### subgrid extraction (`partition.extract_subgrid`, topology part) and face splitting -/
+
+def insertSorted (a : Nat) : List Nat → List Nat
+  | [] => [a]
+  | b :: l => if a ≤ b then a :: b :: l else b :: insertSorted a l
+
+/-- `np.sort` -/
+def isort : List Nat → List Nat
+  | [] => []
+  | a :: l => insertSorted a (isort l)
+
+/-- `np.unique` -/
+def uniqueSorted (l : List Nat) : List Nat := dedup (isort l)
+
+/-- columns `cs` of the incidence, renumbered `j, j+1, …` (rows not yet renumbered):
+    `slice_sparse_matrix(cell_faces, c)` -/
+def subEntries (cf : List Inc) : Nat → List Nat → List Inc
+  | _, [] => []
+  | j, c :: cs =>
+    (cf.filter (fun e => e.cell == c)).map (fun e => ⟨e.face, j, e.sign⟩) ++ subEntries cf (j + 1) cs
+
+/-- `extract_subgrid(g, c, sort=True)`: (subgrid topology, unique_faces, unique_nodes) -/
+def extractSubgrid (t : Topo) (cells : List Nat) : Topo × List Nat × List Nat :=
+  let cs := isort cells
+  let sub := subEntries t.cf 0 cs
+  let uf := uniqueSorted (sub.map (·.face))
+  let fsel := uf.map (fun f => t.fn.getD f [])
+  let un := uniqueSorted fsel.flatten
+  ({ dim := t.dim, nf := uf.length, nc := cs.length, nn := un.length,
+     cf := sub.map (fun e => ⟨uf.idxOf e.face, e.cell, e.sign⟩),
+     fn := fsel.map (fun ns => ns.map (fun n => un.idxOf n)) }, uf, un)
+
+/-- splitting face `f` along a fracture (`split_grid`): the entry of cell `c` on `f` moves to a new
+    face (index `nf`) that copies the nodes of `f` -/
+def splitFace (t : Topo) (f c : Nat) : Topo :=
+  { t with nf := t.nf + 1,
+           cf := t.cf.map (fun e => if e.face = f ∧ e.cell = c then ⟨t.nf, e.cell, e.sign⟩ else e),
+           fn := t.fn ++ [t.fn.getD f []] }
 
 /-! ### specification vocabulary and well-formed topologies (hypothesis of the theorems) -/
 
